@@ -7,7 +7,7 @@ facts (unit table_core), TypeTracker::resolve (abstract map; unit kani_tracker, 
 Every assert!/expect/index/panic!() of these functions is an obligation here (C04).
 """
 import re
-from .common import Source, Piece, Gen, Lost, HEADER, count_clauses
+from .common import Source, Piece, Gen, Lost, HEADER, count_clauses, enum_variants
 from . import lib_spirv, lib_dr, decoder as decoder_unit, parser_protocol
 
 NAME = "parser_core"
@@ -133,7 +133,9 @@ OPERAND = """requires old(self).decoder.wf(), old(self).decoder.limit is Some%(R
 C["parse_operand"] = ("r", OPERAND % {"REQ": ", generic_kind(kind)", "FRAME": FRAME, "ENS": """
         // at least one word per operand; an IdRef operand is exactly one IdRef (what OpSwitch's selector lookup relies on)
         r matches Ok(v) ==> (v@.len() >= 1 && final(self).decoder.offset > old(self).decoder.offset
-            && (kind == GOpKind::IdRef ==> (v@.len() == 1 && v@[0] is IdRef))),"""})
+            && (kind == GOpKind::IdRef ==> (v@.len() == 1 && v@[0] is IdRef))),
+        // C03: one concrete operand of the variant(s) the kind dictates
+        r matches Ok(v) ==> chunk_ok_n(kind, v@, 0, v@.len() as int),"""})
 ARGS = OPERAND % {"REQ": "", "FRAME": FRAME, "ENS": ""}
 C["parse_spec_constant_op"] = ("r", """requires old(self).decoder.wf(), old(self).decoder.limit is Some,
     ensures %s
@@ -144,6 +146,10 @@ C["parse_spec_constant_op"] = ("r", """requires old(self).decoder.wf(), old(self
         r is Ok ==> (final(self).decoder.offset - old(self).decoder.offset == 4 * (old(self).decoder.limit->0 - final(self).decoder.limit->0)
             && final(self).decoder.offset > old(self).decoder.offset),
         r matches Ok(v) ==> (v@.len() >= 1 && v@[0] is LiteralSpecConstantOpInteger),
+        // C03/C02: the embedded opcode is a declared one and what follows it conforms to that opcode's row
+        // (required operands present, an optional one possibly absent, a variadic one up to the last word)
+        r matches Ok(v) ==> (v@[0] matches dr::Operand::LiteralSpecConstantOpInteger(op)
+            && nested_ok(op, v@, 1, v@.len() as int, final(self).decoder.limit == Some(0usize))),
         r matches Err(s) ==> ((s is OperandError || s is SpecConstantOpIntegerIncorrect)
             && (s is SpecConstantOpIntegerIncorrect ==> (err_index(s) == Some(old(self).inst_index as int)
                 && old(self).decoder.offset <= err_offset(s)->0 <= final(self).decoder.offset))),""" % FRAME)
@@ -157,6 +163,8 @@ C["parse_operands"] = ("r", """requires old(self).decoder.wf(), old(self).decode
         r is Ok ==> final(self).decoder.offset - old(self).decoder.offset == 4 * (old(self).decoder.limit->0 - final(self).decoder.limit->0),
         // the delivered instruction is of the grammar entry's opcode
         r matches Ok(inst) ==> (inst.class.opcode == grammar.opcode && *inst.class == grammar::row_of(grammar.opcode)),
+        // C03: result type / result id presence and operand structure are those of the row
+        r matches Ok(inst) ==> conforms(grammar.operands@, inst.result_type, inst.result_id, inst.operands@, final(self).decoder.limit == Some(0usize)),
         r matches Err(s) ==> (!is_consumer_state(s) && !(s is Complete) && !(s is WordCountZero) && !(s is OpcodeUnknown) && !(s is OperandExceeded)
             && (err_index(s) matches Some(i) ==> i == old(self).inst_index)
             && (err_offset(s) matches Some(o) ==> old(self).decoder.offset <= o <= old(self).decoder.offset + 4 * (old(self).decoder.limit->0))),""" % FRAME)
@@ -176,7 +184,9 @@ C["parse_inst"] = ("r", """requires old(self).decoder.wf(), old(self).decoder.li
                   // success: exactly the declared extent was consumed (no word left over), the limit is cleared, progress
                   &&& (r matches Ok(inst) ==> (wc != 0 && spirv::declared_Op(opc as u32) && (inst.class.opcode as u32) == opc as u32
                          && final(self).decoder.offset == o + 4 * wc && final(self).decoder.offset > old(self).decoder.offset
-                         && final(self).decoder.limit is None))
+                         && final(self).decoder.limit is None
+                         // C03: the delivered instruction conforms to its opcode's row, every word of the extent used
+                         && conforms(grammar::row_operands(inst.class.opcode), inst.result_type, inst.result_id, inst.operands@, true)))
                   // every positioned error names this instruction and an offset inside its declared extent
                   &&& (r matches Err(s) ==> ((err_index(s) matches Some(i) ==> i == final(self).inst_index)
                          && (err_offset(s) matches Some(eo) ==> o <= eo <= o + 4 * wc))) })) }),""" % FRAME)
@@ -273,6 +283,10 @@ def build(tier="quick", must_fail=False):
     g.raw(parser_protocol.SPEC.split("// l = the consumer's log")[0].replace("pub open spec fn is_consumer_state(s: State) -> bool { s is ConsumerStopRequested || s is ConsumerError }", ""))
     g.raw(SPEC)
     param_fns = emit_param_specs(g)
+    from . import parser_conf
+    from .assemble import operand_variants
+    kinds = [n for n, _ in enum_variants(Source.get("rspirv/grammar/autogen_table.rs").find("enum", "OperandKind"))]
+    g.raw(parser_conf.spec_text(kinds, [v for v, _ in operand_variants()]))
     # Consumer trait with the ghost log (same text as unit parser_protocol) — parse_* never touch it
     tp = Piece(src.find("trait", "Consumer"))
     for name, ens in (("initialize", "final(self).log() == old(self).log().push(Event::Init(ans_of(a)))"),
@@ -286,14 +300,15 @@ def build(tier="quick", must_fail=False):
     st.sub(r"(\n\s*)(decoder|consumer|type_tracker|inst_index):", r"\1pub \2:", "R15", count=4)
     g.emit(st, name="binary::parser::Parser", under_contract=False)
 
-    def emit_fn(f, rname, contract, edit=None, static=False):
+    def emit_fn(f, rname, contract, edit=None, static=False, r22=True):
         p = Piece(f)
         if rname:
             p.name_result(rname)
         # R22: `?` on a decoder result converts the error with From<DecodeError> for State; the installed Verus
         # gives that implicit conversion no specification, so it is made explicit through `conv`, whose body
         # calls the real `State::from`
-        p.sub(r"(self\.decoder\.\w+\(\))\?", r"conv(\1)?", "R22", required=False)
+        if r22:
+            p.sub(r"(self\.decoder\.\w+\(\))\?", r"conv(\1)?", "R22", required=False)
         if not f.core_text.startswith("pub"):
             p.sub(r"^fn ", "pub fn ", "R15", count=1)
         if edit:
@@ -313,10 +328,42 @@ def build(tier="quick", must_fail=False):
         p.sub(r"assert_eq!\(grammar\.opcode, spirv::Op::Switch\);", "assert!(grammar.opcode == spirv::Op::Switch);", "R18", count=1)
         p.sub(r"rtype\.expect\(\s*\"[^\"]*\"\s*,?\s*\)", "expect_some(rtype)", "R10", count=1, flags=re.S)
         p.sub(r"_ => panic!\(\"internal error: OpSwitch selector should be IdRef\"\),", "_ => unreachable_panic(),", "R10", count=1)
+        # R25: the temporaries of the two `append(&mut ..?)` calls get names so that ghost code can refer to them
+        p.sub(r"coperands\.append\(&mut self\.parse_spec_constant_op\(\)\?\)",
+              "{ let mut sc = self.parse_spec_constant_op()?; proof { match sc@[0] { dr::Operand::LiteralSpecConstantOpInteger(op) => { "
+              "spec_op_chunk(op, coperands@, sc@, self.decoder.limit == Some(0usize)); } _ => {} } } coperands.append(&mut sc) }", "R25", count=1)
+        p.sub(r"_ => coperands\.append\(&mut self\.parse_operand\(loperand\.kind\)\?\),",
+              "_ => { let mut gv = self.parse_operand(loperand.kind)?; proof { chunk_shift_n(loperand.kind, coperands@, gv@); } coperands.append(&mut gv) }", "R25", count=1)
+        # ghost bookkeeping of the match trace at the two places the logical index moves on / stays
+        p.sub(r"GOpCount::One \| GOpCount::ZeroOrOne => loperand_index \+= 1,",
+              """GOpCount::One | GOpCount::ZeroOrOne => {
+                        proof {
+                            if is_res(loperand.kind) { skip_t(grammar.operands@, coperands@, 0, ks, ends, pos, loperand_index as int, false); pos = pos.push(-1); }
+                            else { push_advance_t(grammar.operands@, c0, coperands@, 0, ks, ends, pos, loperand_index as int, false);
+                                   pos = pos.push(ks.len() as int); ks = ks.push(loperand_index as int); ends = ends.push(coperands@.len() as int); }
+                        }
+                        loperand_index += 1 }""", "ghost", count=1)
+        p.sub(r"GOpCount::ZeroOrMore => continue,",
+              """GOpCount::ZeroOrMore => {
+                        proof { push_stay_t(grammar.operands@, c0, coperands@, 0, ks, ends, pos, loperand_index as int, false);
+                                ks = ks.push(loperand_index as int); ends = ends.push(coperands@.len() as int); }
+                        continue }""", "ghost", count=1)
+        p.sub(r"Ok\(dr::Instruction::new\(grammar\.opcode, rtype, rid, coperands\)\)",
+              """proof {
+            let ex = self.decoder.limit == Some(0usize);
+            conforms_weaken(grammar.operands@, coperands@, 0, ks, ends, pos, loperand_index as int, false, ex);
+            wf_ids_at(grammar.operands@, 0, 0); wf_ids_at(grammar.operands@, 0, 1);
+            assert(conforms_t(grammar.operands@, coperands@, 0, ks, ends, pos, loperand_index as int, ex) && end_of(0, ends) == coperands@.len()
+                && stop_ok(grammar.operands@, loperand_index as int, ex));
+        }
+        Ok(dr::Instruction::new(grammar.opcode, rtype, rid, coperands))""", "ghost", count=1)
         p.insert_at("{", """
         proof { grammar::row_shape(grammar.opcode); }
         let ghost o0 = self.decoder.offset as int;
         let ghost l0 = self.decoder.limit->0 as int;
+        let ghost mut ks: Seq<int> = Seq::empty();
+        let ghost mut ends: Seq<int> = Seq::empty();
+        let ghost mut pos: Seq<int> = Seq::empty();
 """, where="after", nth=1, tag="ghost")
         p.add_loop_contract(1, """            invariant
                 loperand_index <= grammar.operands@.len(),
@@ -331,19 +378,87 @@ def build(tier="quick", must_fail=False):
                 (loperand_index >= 1 && grammar.operands@[0].kind == GOpKind::IdRef && grammar.operands@[0].quantifier == GOpCount::One)
                     ==> (coperands@.len() >= 1 && coperands@[0] is IdRef),
                 (loperand_index == 0 && grammar.operands@.len() > 0 && grammar.operands@[0].quantifier == GOpCount::One) ==> coperands@.len() == 0,
+                // C03: the operands parsed so far are chunks following the row up to loperand_index
+                conforms_t(grammar.operands@, coperands@, 0, ks, ends, pos, loperand_index as int, false),
+                end_of(0, ends) == coperands@.len(),
+                grammar::wf_ids(grammar.operands@, 0),
+                rtype is Some <==> (loperand_index >= 1 && grammar.operands@[0].kind == GOpKind::IdResultType),
+                rid is Some <==> ((loperand_index >= 1 && grammar.operands@[0].kind == GOpKind::IdResult)
+                    || (loperand_index >= 2 && grammar.operands@[1].kind == GOpKind::IdResult)),
+                forall|j: int| 0 <= j < loperand_index ==> (#[trigger] grammar.operands@[j]).quantifier != GOpCount::ZeroOrMore,
+            ensures
+                stop_ok(grammar.operands@, loperand_index as int, self.decoder.limit == Some(0usize)),
             decreases grammar.operands@.len() - loperand_index, self.decoder.limit->0,""")
         p.insert_at("let has_more_coperands = !self.decoder.limit_reached();",
-                    "\n            proof { grammar::special_at(grammar.operands@, grammar.opcode, 0, loperand_index as int); }",
+                    "\n            proof { grammar::special_at(grammar.operands@, grammar.opcode, 0, loperand_index as int); wf_ids_at(grammar.operands@, 0, loperand_index as int); }"
+                    "\n            let ghost c0 = coperands@;",
                     where="after", nth=1, tag="ghost")
+        # cut point between the kind match and the quantifier match: what the kind match established
+        p.insert_at("match loperand.quantifier {", """proof {
+                    assert(is_res(loperand.kind) ==> coperands@ == c0);
+                    assert(!is_res(loperand.kind) ==> (ext(c0, coperands@) && chunk_ok_t(loperand.kind, coperands@, c0.len() as int, coperands@.len() as int)));
+                }
+                """, where="before", nth=1, tag="ghost")
 
     def spec_edit(p):
-        p.add_loop_contract(1, """                invariant
+        ROW = "g.operands@"
+        GH = "let ghost c0 = operands@; let ghost ex0 = self.decoder.limit == Some(0usize); let mut gv = self.parse_operand(kind)?; " \
+             "proof { chunk_shift_n(kind, c0, gv@); } operands.append(&mut gv); "
+        ADV = GH + "proof { let ex1 = self.decoder.limit == Some(0usize); conforms_weaken(%s, c0, 1, ks, ends, pos, iter.index@ as int, ex0, ex1); " \
+                   "push_advance_n(%s, c0, operands@, 1, ks, ends, pos, iter.index@ as int, ex1); " \
+                   "pos = pos.push(ks.len() as int); ks = ks.push(iter.index@ as int); ends = ends.push(operands@.len() as int); }" % (ROW, ROW)
+        INV = """
                     *g == grammar::row_of(g.opcode),
                     self.consumer.log() == old(self).consumer.log(), self.decoder.bytes == old(self).decoder.bytes,
                     self.type_tracker == old(self).type_tracker, self.inst_index == old(self).inst_index,
                     acct(self.decoder, old(self).decoder.offset as int, old(self).decoder.limit->0 as int),
                     self.decoder.offset > old(self).decoder.offset,
-                    operands@.len() >= 1 && operands@[0] is LiteralSpecConstantOpInteger,""")
+                    operands@.len() >= 1 && operands@[0] == dr::Operand::LiteralSpecConstantOpInteger(g.opcode),
+                    grammar::wf_ids(g.operands@, 0), grammar::wf_quant(g.operands@, 0, false),
+                    end_of(1, ends) == operands@.len(),"""
+        LOOP2 = """
+                                invariant""" + INV + """
+                                    iter.index@ < g.operands@.len(), *loperand == g.operands@[iter.index@ as int], kind == loperand.kind, generic_kind(kind),
+                                    loperand.quantifier == GOpCount::ZeroOrMore,
+                                    pos.len() == iter.index@,
+                                    conforms_n(g.operands@, operands@, 1, ks, ends, pos, iter.index@ as int, self.decoder.limit == Some(0usize)),
+                                    forall|j: int| 0 <= j < iter.index@ ==> ((#[trigger] g.operands@[j]).quantifier == GOpCount::ZeroOrMore ==> self.decoder.limit == Some(0usize)),
+                                decreases self.decoder.limit->0,
+                            """
+        if "match loperand.quantifier" not in p.text:
+            # shape without a quantifier match: every logical operand is parsed exactly once
+            p.sub(r"kind => operands\.append\(&mut self\.parse_operand\(kind\)\?\),",
+                  "kind => { " + GH + "proof { let ex1 = self.decoder.limit == Some(0usize); conforms_weaken(%s, c0, 1, ks, ends, pos, iter.index@ as int, ex0, ex1); "
+                  "if loperand.quantifier == GOpCount::ZeroOrMore { push_stay_n(%s, c0, operands@, 1, ks, ends, pos, iter.index@ as int, ex1); "
+                  "ks = ks.push(iter.index@ as int); ends = ends.push(operands@.len() as int); "
+                  "leave_variadic_n(%s, operands@, 1, ks, ends, pos, iter.index@ as int, ex1); pos = pos.push(ks.len() - 1); } else { "
+                  "push_advance_n(%s, c0, operands@, 1, ks, ends, pos, iter.index@ as int, ex1); "
+                  "pos = pos.push(ks.len() as int); ks = ks.push(iter.index@ as int); ends = ends.push(operands@.len() as int); } } }" % (ROW, ROW, ROW, ROW),
+                  "R25+ghost", count=1)
+        NEW = "match loperand.quantifier" in p.text
+        # R25: temporaries named; ghost bookkeeping of the match trace
+        p.sub(r"GOpCount::One => operands\.append\(&mut self\.parse_operand\(kind\)\?\),", "GOpCount::One => { " + ADV + " }", "R25+ghost", count=(1 if NEW else None), required=NEW)
+        p.sub(r"if !self\.decoder\.limit_reached\(\) \{\s*operands\.append\(&mut self\.parse_operand\(kind\)\?\)\s*\}",
+              "if !self.decoder.limit_reached() { " + ADV + " } proof { if pos.len() == iter.index@ { "
+              "skip_n(%s, operands@, 1, ks, ends, pos, iter.index@ as int, true); pos = pos.push(-1); } }" % ROW, "R25+ghost", count=(1 if NEW else None), required=NEW)
+        p.sub(r"while !self\.decoder\.limit_reached\(\) \{\s*operands\.append\(&mut self\.parse_operand\(kind\)\?\)\s*\}",
+              "while !self.decoder.limit_reached()" + LOOP2.replace("\\", "\\\\") + "{ " + GH +
+              "proof { let ex1 = self.decoder.limit == Some(0usize); conforms_weaken(%s, c0, 1, ks, ends, pos, iter.index@ as int, ex0, ex1); "
+              "push_stay_n(%s, c0, operands@, 1, ks, ends, pos, iter.index@ as int, ex1); ks = ks.push(iter.index@ as int); ends = ends.push(operands@.len() as int); } } "
+              "proof { leave_variadic_n(%s, operands@, 1, ks, ends, pos, iter.index@ as int, true); "
+              "pos = pos.push(if ks.len() > 0 && ks[ks.len() - 1] == iter.index@ { ks.len() - 1 } else { -1 }); }" % (ROW, ROW, ROW), "R25+ghost", count=(1 if NEW else None), required=NEW)
+        p.sub(r"GOpKind::IdResultType \| GOpKind::IdResult => \{\}",
+              "GOpKind::IdResultType | GOpKind::IdResult => { proof { wf_ids_at(g.operands@, 0, iter.index@ as int); skip_n(%s, operands@, 1, ks, ends, pos, iter.index@ as int, self.decoder.limit == Some(0usize)); pos = pos.push(-1); } }" % ROW,
+              "ghost", count=1)
+        p.sub(r"(\n\s*)Ok\(operands\)", r"""\1proof { assert(conforms_n(g.operands@, operands@, 1, ks, ends, pos, g.operands@.len() as int, self.decoder.limit == Some(0usize))
+                && end_of(1, ends) == operands@.len() && stop_ok(g.operands@, g.operands@.len() as int, self.decoder.limit == Some(0usize))); }\1Ok(operands)""", "ghost", count=1)
+        p.add_loop_contract(1, """                invariant""" + INV + """
+                    // C03: what follows the embedded opcode are chunks following its row up to the current logical operand
+                    pos.len() == iter.index@,
+                    conforms_n(g.operands@, operands@, 1, ks, ends, pos, iter.index@ as int, self.decoder.limit == Some(0usize)),
+                    forall|j: int| 0 <= j < iter.index@ ==> ((#[trigger] g.operands@[j]).quantifier == GOpCount::ZeroOrMore ==> self.decoder.limit == Some(0usize)),""")
+        p.insert_at("for loperand in", "let ghost mut ks: Seq<int> = Seq::empty();\n            let ghost mut ends: Seq<int> = Seq::empty();\n            "
+                    "let ghost mut pos: Seq<int> = Seq::empty();\n            proof { grammar::row_shape(g.opcode); }\n            ", where="before", nth=1, tag="ghost")
         p.sub(r"for loperand in g\.operands", "for loperand in iter: g.operands", "G1", count=1)
 
     g.raw("""// R6: u32::swap_bytes (std); validated by Kani for all u32 in unit kani_std
@@ -390,7 +505,30 @@ pub fn unreachable_panic() -> (r: u32) requires false { unimplemented!() }
         if f.name == "parse_operand":
             def edit(p):
                 p.sub(r"=> panic!\(\),", "=> { unreachable_panic(); vec![] }", "R10", count=5)
-            emit_fn(f, "r", C["parse_operand"][1], edit)
+                R22 = lambda t: re.sub(r"(self\.decoder\.\w+\(\))\?", r"conv(\1)?", t)
+                # R25 + ghost: the vector built by each arm is named and checked against the arm's kind where it is built,
+                # so that a wrong arm fails its own assertion (R22 applied inside the rewritten arms)
+                n1 = p.sub(r"GOpKind::(\w+) => vec!\[((?:[^\[\]]|\[[^\]]*\])*?)\],",
+                           lambda m: "GOpKind::%s => { let av = vec![%s]; proof { assert(chunk_ok_n(GOpKind::%s, av@, 0, av@.len() as int)); } av }," % (
+                               m.group(1), R22(m.group(2)), m.group(1)), "R22+R25+ghost", flags=re.S)
+                n2 = p.sub(r"GOpKind::(\w+) => \{\s*vec!\[((?:[^\[\]]|\[[^\]]*\])*?)\]\s*\}",
+                           lambda m: "GOpKind::%s => { let av = vec![%s]; proof { assert(chunk_ok_n(GOpKind::%s, av@, 0, av@.len() as int)); } av }" % (
+                               m.group(1), R22(m.group(2)), m.group(1)), "R22+R25+ghost", required=False, flags=re.S)
+                n3 = p.sub(r"GOpKind::(\w+) => \{(\s*let val = [^;]*;\s*let mut ops = [^;]*;\s*ops\.append\([^;]*;)\s*ops\s*\}",
+                           lambda m: "GOpKind::%s => {%s proof { assert(chunk_ok_n(GOpKind::%s, ops@, 0, ops@.len() as int)); } ops }" % (
+                               m.group(1), R22(m.group(2)), m.group(1)), "R22+ghost", flags=re.S)
+                # the same fact per arm as a tiny lemma over the constructors read off the arm (lifted): decides quickly
+                # (and names the arm) when an arm builds the wrong variant, where the in-function assertion only times out
+                for m in re.finditer(r"GOpKind::(\w+) => (?:\{\s*)?(?:let val = [^;]*;\s*let mut ops = )?vec!\[((?:[^\[\]]|\[[^\]]*\])*?)\]", p.text, re.S):
+                    ctors = re.findall(r"dr::Operand::(\w+)\(", m.group(2))
+                    par = "let mut ops" in m.group(0)
+                    arm_lemmas.append("pub proof fn parse_operand_arm_%s(av: Seq<dr::Operand>)\n    requires av.len() %s %d, %s,\n    ensures chunk_ok_n(GOpKind::%s, av, 0, av.len() as int),\n{}" % (
+                        m.group(1), ">=" if par else "==", len(ctors), ", ".join("av[%d] is %s" % (i, c) for i, c in enumerate(ctors)), m.group(1)))
+                kinds_n = len(re.findall(r"GOpKind::\w+ =>", p.text))
+                if n1 + n2 + n3 + 5 != kinds_n:
+                    raise Lost("parse_operand: %d arms, %d rewritten (+5 panic arms)" % (kinds_n, n1 + n2 + n3))
+            arm_lemmas = []
+            emit_fn(f, "r", C["parse_operand"][1], edit, r22=False)
         else:
             def edit(p):
                 # ghost cut points between the sequential `if` blocks (keeps the query linear)
@@ -405,6 +543,10 @@ pub fn unreachable_panic() -> (r: u32) requires false { unimplemented!() }
                 extra = "\n        // C17: exactly the parameters reflection reports for this value, in order\n        r matches Ok(ops) ==> tags_of(ops@) =~= %s(%s)," % (param_fns[K], argname)
             emit_fn(f, "r", ARGS + extra, edit)
     g.raw("}")
+    if not must_fail:
+        if len(arm_lemmas) < 50:
+            raise Lost("parse_operand: only %d arms lifted" % len(arm_lemmas))
+        g.raw("// one lemma per arm of parse_operand (constructors lifted from the arm)\n" + "\n".join(arm_lemmas))
     g.n_generated = len(gfns)
     g.raw("} // mod parser")
     g.raw("} // mod binary")
@@ -462,6 +604,25 @@ def witness(failure, ctx):
     for opc in (43, 50, 52, 251, 81, 79, 128, 0x10080, 0xffff, 0):
         m = seeds.HEADER + seeds.inst(21, 4, 32, 1) + seeds.inst(52, 4, 13, opc, 8, 12, 1, 2)
         cases.append(("specop%d" % opc, seeds.to_hex_bytes(m)))
+    # C03/C02: OpSpecConstantOp embedding an opcode whose last operand is variadic, with 0, 1, 2 and 3 variadic operands:
+    # grammar-conforming, so it must be accepted and come back operand for operand
+    for opc, fixed in ((81, [8]), (82, [8, 9]), (79, [8, 9]), (65, [8])):
+        for nvar in (0, 1, 2, 3):
+            m = seeds.HEADER + seeds.inst(21, 4, 32, 1) + seeds.inst(52, 4, 13, opc, *(fixed + [1, 2, 3][:nvar]))
+            cases.append(("c03-specop-variadic-%d-%d" % (opc, nvar), seeds.to_hex_bytes(m)))
+    # C03: quantifier structure at top level. must-accept: optional operand present / absent, variadic 0..3, parameterised
+    # enumerant with its parameter; must-reject: missing required operand, operand after the optional one, surplus word
+    T = seeds.HEADER + seeds.inst(19, 1) + seeds.inst(21, 2, 32, 0) + seeds.inst(32, 3, 7, 2)   # %1 void, %2 u32, %3 ptr Function u32
+    for name, words in (("var", seeds.inst(59, 3, 4, 6)), ("var-init", seeds.inst(59, 3, 4, 6, 9)),
+                        ("struct0", seeds.inst(30, 5)), ("struct1", seeds.inst(30, 5, 2)), ("struct3", seeds.inst(30, 5, 2, 2, 2)),
+                        ("decorate-specid", seeds.inst(71, 2, 1, 7)), ("decorate-plain", seeds.inst(71, 2, 0)),
+                        ("entry-noif", seeds.inst(15, 5, 9, *seeds.s("m"))), ("entry-if2", seeds.inst(15, 5, 9, *(seeds.s("m") + [4, 5])))):
+        cases.append(("c03-accept-" + name, seeds.to_hex_bytes(T + words)))
+    for name, words in (("var-two-inits", seeds.inst(59, 3, 4, 6, 9, 10)), ("var-no-class", seeds.inst(59, 3, 4)),
+                        ("void-extra", seeds.inst(19, 8, 1)), ("memmodel-extra", seeds.inst(14, 0, 1, 1)), ("memmodel-short", seeds.inst(14, 0)),
+                        ("decorate-specid-noparam", seeds.inst(71, 2, 1)), ("decorate-plain-extra", seeds.inst(71, 2, 0, 5)),
+                        ("typeint-short", seeds.inst(21, 8, 32)), ("typeint-extra", seeds.inst(21, 8, 32, 0, 0))):
+        cases.append(("c03-reject-" + name, seeds.to_hex_bytes(T + words)))
     # C01: crafted modules in layout order whose instructions must come back word-identical (or be rejected):
     # strings with non-UTF-8 bytes, with every length mod 4, 64-bit literals, all sections populated
     for bad in ([0xff, 0x41, 0, 0], [0x41, 0xc3, 0x28, 0], [0x41, 0x42, 0x43, 0x44, 0xe2, 0x82, 0, 0], [0x80, 0, 0, 0]):
@@ -479,6 +640,15 @@ def witness(failure, ctx):
              + seeds.inst(54, 2, 20, 0, 3) + seeds.inst(248, 21) + seeds.inst(1, 4, 8) + seeds.inst(251, 8, 22, *(lit + [23]))
              + seeds.inst(248, 22) + seeds.inst(253) + seeds.inst(248, 23) + seeds.inst(253) + seeds.inst(56))
         cases.append(("c10-%s%d" % (kind, width), seeds.to_hex_bytes(m)))
+    # C01/C10: literals of narrow integer types whose unused high-order bits are not canonical: one word each,
+    # and the word must come back bit for bit (OpConstant and OpSwitch case literals), signed and unsigned
+    for width in (8, 16, 32):
+        for signed in (0, 1):
+            for lit in (0xffff1234, 0x100, 0x80000000):
+                m = (seeds.HEADER + seeds.inst(19, 2) + seeds.inst(33, 3, 2) + seeds.inst(21, 4, width, signed) + seeds.inst(43, 4, 9, lit)
+                     + seeds.inst(54, 2, 20, 0, 3) + seeds.inst(248, 21) + seeds.inst(1, 4, 8) + seeds.inst(251, 8, 22, lit, 23)
+                     + seeds.inst(248, 22) + seeds.inst(253) + seeds.inst(248, 23) + seeds.inst(253) + seeds.inst(56))
+                cases.append(("c10-narrow-int%d-%d-%x" % (width, signed, lit), seeds.to_hex_bytes(m)))
     p, err = ctx["vreplay"](["parse-batch"], stdin="\n".join(h for _, h in cases) + "\n", timeout=900)
     if p is None or p.returncode != 0:
         return {"found": False, "error": err or p.stderr[-300:]}
@@ -488,14 +658,16 @@ def witness(failure, ctx):
         bad = None
         if o.startswith("PANIC"):
             bad = "panic: " + o
+        elif o.startswith("Ok") and name.startswith("c03-reject-"):
+            bad = "an instruction whose operand words do not match its grammar row is accepted: " + o
         elif o.startswith("Ok"):
             if " rt=1" not in o:
                 bad = "accepted input does not re-assemble to a fixed point"
             elif name == "seed" and o.split("words=")[1] != seedwords:
                 bad = "seed module (layout order) does not come back word-identical"
-            elif (name == "seed" or name.startswith("c01-") or name.startswith("c10-")) and " same=1" not in o:
+            elif (name == "seed" or name.startswith("c01-") or name.startswith("c10-") or name.startswith("c03-")) and " same=1" not in o:
                 bad = "accepted input is not reproduced instruction for instruction (C01)"
-        elif name == "seed" or name.startswith("c10-"):
+        elif name == "seed" or name.startswith("c10-") or name.startswith("c03-specop-variadic") or name.startswith("c03-accept-"):
             bad = "a well-formed module is rejected: " + o
         elif o.startswith("Err"):
             m = re.search(r"\((\d+),(\d+)[,)]", o)
